@@ -4,7 +4,7 @@ import CE.Cbe.Reencode
   Stream-level CBE round trip and re-encode fixed point with ARRAYS SENT IN CHUNKS.
 
   An `Item` is one event of the structural fragment (CE/Cbe/StreamRoundTrip.lean: `simple`), or a whole
-  array of a whole-byte element kind (strings, resource ids, u8 .. u64, i8 .. i64, f16 .. f64, uid) sent
+  array of a whole-byte element kind (strings, resource ids, remote references, u8 .. u64, i8 .. i64, f16 .. f64, uid) sent
   as `arrayBegin`, then any number of chunks (`arrayChunk n more`), the data of each chunk in any
   number of `arrayData` pieces; or a media object (`mediaBegin` with its media type) or custom binary
   data (`customBegin` with its type number) followed by chunks in the same way.  This is where the encoder's array state lives (`trySmall`: the first
@@ -20,7 +20,7 @@ import CE.Cbe.Reencode
 namespace CE.Cbe
 
 /-- array kinds of the chunked fragment: whole-byte elements -/
-def frag (t : ArrT) : Bool := typedArr t || t == .string || t == .rid
+def frag (t : ArrT) : Bool := typedArr t || t == .string || t == .rid || t == .remoteRef
 
 theorem frag_bits (t : ArrT) (h : frag t = true) :
     t.elemBits = 8 * (t.elemBits / 8) ∧ 0 < t.elemBits / 8 ∧ t.elemBits / 8 ≤ 16 ∧ t ≠ .bit := by
@@ -37,12 +37,23 @@ theorem decodeOne_arrayHeader (t : ArrT) (h : frag t = true) :
   · subst hr
     refine ⟨[u8 0x91], by simp [arrayHeader, arrayCode], by simp, ?_⟩
     intro X; rw [List.singleton_append, decodeOne_byte _ .rid (by decide)]; rfl
+  by_cases hrr : t = .remoteRef
+  · subst hrr
+    refine ⟨[u8 tPlane7f, u8 pRemoteRef], by simp [arrayHeader, arrayCode, pRemoteRef], by simp, ?_⟩
+    intro X
+    simp only [List.cons_append, List.nil_append]
+    rw [decodeOne_byte _ .plane7f (by decide)]
+    have h1 : plane7fShort (pRemoteRef / 16 * 16) = none := by decide
+    have h2 : pRemoteRef ≠ pMarker ∧ pRemoteRef ≠ pRecordType := by decide
+    have h3 : (u8 pRemoteRef).toNat = pRemoteRef := by decide
+    simp only [decodeTok, decodePlane7f, h3, h1, h2.1, h2.2, if_false, if_true]
   have ht : typedArr t = true := by
     simp only [frag, Bool.or_eq_true, beq_iff_eq] at h
-    rcases h with (h | h) | h
+    rcases h with ((h | h) | h) | h
     · exact h
     · exact absurd h hs
     · exact absurd h hr
+    · exact absurd h hrr
   by_cases hu8 : t = .u8
   · subst hu8
     refine ⟨[u8 0x93], by simp [arrayHeader, arrayCode], by simp, ?_⟩
@@ -270,9 +281,10 @@ theorem decodeOne_group (t : ArrT) (hf : frag t = true) (hd : Bytes) (hah : arra
         simpa [renorm, hlen, hle] using this
       · have ht : typedArr t = true := by
           simp only [frag, Bool.or_eq_true, beq_iff_eq] at hf
-          rcases hf with (h1 | h1) | h1
+          rcases hf with ((h1 | h1) | h1) | h1
           · exact h1
           · exact absurd h1 hs
+          · subst h1; simp [smallHeader, shortCode] at hsm
           · subst h1; simp [smallHeader, shortCode] at hsm
         have hsimple : simple (.array t last.count last.data) = true := by
           simp only [simple, ht, Bool.true_and, Bool.and_eq_true, decide_eq_true_eq]
